@@ -64,11 +64,29 @@ def _balanced(t):
     return d == 0
 
 
+PATH_FACTS = []      # decisions of the path being matched (set by check_hashdata): lets a predicate use what the path knows
+
+
+def _no_line_feed(doc):
+    """Does a decision taken on the current path pin "no LF octet in DOC" (`b'\\n' not in DOC` true / `b'\\n' in DOC` false)?"""
+    from . import guards
+    for text, value, sk in PATH_FACTS:
+        for a in guards.atoms(sk):
+            if a[0] == 'cmp' and a[1] in ('in', 'not in') and a[2] == 'C(0a)' and a[3] == doc:
+                absent = a[1] == 'not in'
+                if guards.eval_skel(sk, lambda at, _a=a: (absent if at is _a else None)) == value and \
+                        guards.eval_skel(sk, lambda at, _a=a: ((not absent) if at is _a else None)) == (not value):
+                    return True
+    return False
+
+
 def canon_pred(doc_aliases):
     """CANON(DOC): every line ending of DOC converted to CR LF (RFC 4880 5.2.4 / 7.1), decided on the regex AST."""
     def p(item):
         if item[0] != 'SYM':
             return False
+        if item[1] in doc_aliases and _no_line_feed(item[1]):
+            return True     # fast path: on this path DOC was decided to hold no LF, so CANON(DOC) is DOC itself
         # value text of the term: re.sub(P, R, DOC[, 0][, flags=0]) or re.subn(...)[0]; a compiled pattern is spelled back to this
         # form by the canonicaliser, locals are resolved by the interpreter
         m = re.match(r"^re\.(subn?)\((.*)\)(\[0\])?$", item[1])
@@ -219,7 +237,11 @@ def check_hashdata(rep, prog, rid, only_types=None):
             if r in seen:
                 continue
             seen.add(r)
-            ok, roles, msg, exp = match_any(s.ret.items, builder, role_aliases)
+            PATH_FACTS[:] = list(s.facts)
+            try:
+                ok, roles, msg, exp = match_any(s.ret.items, builder, role_aliases)
+            finally:
+                PATH_FACTS[:] = []
             n += 1
             if ok:
                 rep.ok(rid, 'PGPSignature.hashdata', {'found': r, 'template': exp}, scenario=name)
